@@ -17,6 +17,7 @@ import (
 	"context"
 	"crypto/sha256"
 	"database/sql"
+	"encoding/hex"
 	"encoding/json"
 	"errors"
 	"fmt"
@@ -242,9 +243,69 @@ func (e *env) drain() (bool, string) {
 
 // ---------------------------------------------------------------- bytes
 
-func gen(content string, size int, seed int64) []byte {
+// framing holds, per "like-*" content class, a valid header of the framing layer - taken from what the REAL
+// layer writes into a filesystem store, not re-implemented here.
+var (
+	framing   = map[string][]byte{}
+	framingMu sync.Mutex
+)
+
+// framingPrefix stores a small part through stack (over a filesystem store) and returns the first n bytes
+// (n <= 0: all) of the file the innermost store holds for it.
+func framingPrefix(stack []string, p params, content []byte, n int) []byte {
+	e, err := build(stack, p)
+	must(err)
+	defer e.destroy()
+	id, err := partstore.NewRandomPartId()
+	must(err)
+	must(e.ps.PutPart(dctx, nil, *id, bytes.NewReader(content)))
+	raw, err := os.ReadFile(filepath.Join(e.dir, "fs2", hex.EncodeToString(id.Bytes())))
+	must(err)
+	if n > 0 {
+		if len(raw) < n {
+			must(fmt.Errorf("stored object of %v shorter than its header", stack))
+		}
+		raw = raw[:n]
+	}
+	return raw
+}
+
+func likePrefix(content string, p params) []byte {
+	framingMu.Lock()
+	defer framingMu.Unlock()
+	if b, ok := framing[content]; ok {
+		return b
+	}
+	small := []byte("0123456789")
+	var b []byte
+	switch content {
+	case "like-comp-none": // incompressible content: stored with the "none" header
+		noise := make([]byte, 4096)
+		rand.New(rand.NewSource(42)).Read(noise)
+		b = framingPrefix([]string{"zstd", "fs"}, p, noise, 32)
+	case "like-comp-zstd":
+		b = framingPrefix([]string{"zstd", "fs"}, p, make([]byte, 4096), 32)
+	case "like-comp-gzip":
+		b = framingPrefix([]string{"gzip", "fs"}, p, make([]byte, 4096), 32)
+	case "like-tink": // length prefix, part header JSON, tink header, one short segment
+		b = framingPrefix([]string{"tink", "fs"}, p, small, 0)
+	case "like-ec": // shard header, frame header, payload of shard 0
+		b = framingPrefix([]string{"ec", "fs"}, p, small, 0)
+	default:
+		panic("content class " + content)
+	}
+	framing[content] = b
+	return b
+}
+
+func gen(content string, size int, seed int64, p params) []byte {
 	b := make([]byte, size)
 	r := rand.New(rand.NewSource(seed))
+	if strings.HasPrefix(content, "like-") {
+		r.Read(b)
+		copy(b, likePrefix(content, p))
+		return b
+	}
 	switch content {
 	case "zeros":
 	case "random":
@@ -534,8 +595,8 @@ func main() {
 						r.ids[n] = *id
 					}
 					s := seed*1000003 + int64(k.Case)*7919
-					r.bl["b1"] = mk("b1", gen(k.Content, k.Size, s))
-					r.bl["b2"] = mk("b2", gen(k.Content, k.Params.B2Size, s+1))
+					r.bl["b1"] = mk("b1", gen(k.Content, k.Size, s, k.Params))
+					r.bl["b2"] = mk("b2", gen(k.Content, k.Params.B2Size, s+1, k.Params))
 					r.bl["empty"] = mk("empty", nil)
 					r.recs = append(r.recs, map[string]any{"ev": "reset", "case": k.Case, "sem": k.Sem, "big": k.Big, "stack": k.Stack,
 						"size": k.Size, "content": k.Content, "op": "-", "mode": "-", "id": "-", "blob": "-", "ro": false,
